@@ -1331,6 +1331,10 @@ impl Formatter {
         let mut doy: Option<u32> = None;
         let mut now: Option<chrono::NaiveDateTime> = None;
         let mut get_now = || {
+            #[cfg(feature = "verif-hooks")]
+            if now.is_none() {
+                now = crate::verif_hooks::clock_override();
+            }
             if now.is_none() {
                 now = Some(Local::now().naive_local());
             }
